@@ -209,8 +209,8 @@ def table_rlimit_constants():
     out = []
     for f in ("psutil/_psutil_posix.c", "psutil/_psutil_linux.c"):
         txt = open(os.path.join(repo, f)).read()
-        for m in re.finditer(r'PyModule_AddIntConstant\(\s*mod\s*,\s*"(\w+)"\s*,\s*([^)]+?)\s*\)', txt):
-            name, expr = m.group(1), m.group(2).strip()
+        for m in re.finditer(r'PyModule_AddIntConstant\(\s*\w+\s*,\s*"(\w+)"\s*,\s*((?:\(\s*\w+\s*\)\s*)?\w+)\s*\)', txt):
+            name, expr = m.group(1), re.sub(r"^\(\s*\w+\s*\)\s*", "", m.group(2).strip())      # a cast does not matter
             ok = expr == name or (name == "version" and expr == "PSUTIL_VERSION")
             out.append((f"{f}: constant '{name}' is registered with the macro of the same name", ok,
                         f"registered with {expr}"))
